@@ -129,7 +129,6 @@ def build_dict(path, dictionary, indices, width, nulls=None, optional=False, pag
     dbody = b"".join(struct.pack("<q", v) for v in dictionary)
     dulen = len(dbody)
     if compress:
-        assert version == 2
         dbody = _snappy(dbody)
     dph = pt.PageHeader(type=2, uncompressed_page_size=dulen, compressed_page_size=len(dbody),
                         dictionary_page_header=pt.DictionaryPageHeader(num_values=len(dictionary), encoding=0, i32=1),
@@ -158,7 +157,10 @@ def build_dict(path, dictionary, indices, width, nulls=None, optional=False, pag
         else:
             vbytes = bytes([width]) + (_hybrid_bitpacked(idx, width) if width else b"")
         ulen = len(body) + len(vbytes)
-        body += _snappy(vbytes) if compress else vbytes
+        if compress and version == 1:
+            body = _snappy(body + vbytes)           # v1: levels and values are compressed together
+        else:
+            body += _snappy(vbytes) if compress else vbytes
         if version == 2:
             h2 = pt.DataPageHeaderV2(num_values=len(rows), num_nulls=sum(1 for x in rows if x), num_rows=len(rows),
                                      encoding=8, definition_levels_byte_length=len(lv),
@@ -166,7 +168,7 @@ def build_dict(path, dictionary, indices, width, nulls=None, optional=False, pag
             ph = pt.PageHeader(type=3, uncompressed_page_size=ulen, compressed_page_size=len(body),
                                data_page_header_v2=h2, i32=1)
         else:
-            ph = pt.PageHeader(type=0, uncompressed_page_size=len(body), compressed_page_size=len(body),
+            ph = pt.PageHeader(type=0, uncompressed_page_size=ulen, compressed_page_size=len(body),
                                data_page_header=pt.DataPageHeader(num_values=len(rows), encoding=8,
                                                                   definition_level_encoding=3,
                                                                   repetition_level_encoding=3, i32=1), i32=1)
